@@ -149,6 +149,10 @@ pub trait ZComp: Cache<TKey, ()> {
     fn zsnap(&self, side: &HashMap<u64, TVal>, keys: &mut Vec<u64>) -> Ints;
     /// operations beyond the Cache trait
     fn extra(&mut self, op: &[i128]) -> Option<ZOut>;
+    /// configuration as the model needs it, when it is only known after construction (sketch seeds, Bloom geometry)
+    fn zcfg(&self) -> Option<Ints> {
+        None
+    }
     const OPS: &'static [i128];
 }
 pub enum ZOut {
@@ -300,5 +304,72 @@ impl<C: ZComp> Subject for ZCompSubj<C> {
     fn snapshot(&self) -> Ints {
         let mut keys = Vec::new();
         self.c.zsnap(&self.side, &mut keys)
+    }
+    fn cfg_override(&self) -> Option<Ints> {
+        self.c.zcfg()
+    }
+}
+
+// ---------------------------------------------------------------- WTinyLFUCache over (TKey, ())
+use crate::lfu::VKeyHasher;
+pub type ZWTiny = caches::WTinyLFUCache<TKey, (), VKeyHasher, VHasher, VHasher, VHasher>;
+/// the key-hasher mode of the W-TinyLFU under test (the cache does not hand its key hasher back)
+pub static ZW_KH: std::sync::atomic::AtomicU64 = std::sync::atomic::AtomicU64::new(0);
+
+pub fn mk_zwtiny(w: usize, prot: usize, prob: usize, samples: usize, fp: f64, khmode: u64, hmode: u64) -> ZWTiny {
+    ZW_KH.store(khmode, std::sync::atomic::Ordering::Relaxed);
+    caches::WTinyLFUCacheBuilder::with_hashers(
+        VKeyHasher(khmode),
+        VHasher::from_mode(hmode),
+        VHasher::from_mode(hmode + 1),
+        VHasher::from_mode(hmode + 2),
+    )
+    .set_window_cache_size(w)
+    .set_protected_cache_size(prot)
+    .set_probationary_cache_size(prob)
+    .set_samples(samples)
+    .set_false_positive_ratio(fp)
+    .finalize::<()>()
+    .unwrap()
+}
+
+impl ZComp for ZWTiny {
+    const KIND: u32 = 4;
+    const OPS: &'static [i128] = &[0, 1, 3, 5, 6, 7, 8, 9, 10, 100, 101, 102, 103];
+    fn zsnap(&self, side: &HashMap<u64, TVal>, keys: &mut Vec<u64>) -> Ints {
+        let (t, w, m) = self.verif_parts();
+        let (prob, prot) = m.verif_parts();
+        let mut out = vec![w.cap() as i128, prob.cap() as i128, prot.cap() as i128];
+        let a = zsnap_list(w, side, &mut out, keys);
+        let b = zsnap_list(prob, side, &mut out, keys);
+        let c = zsnap_list(prot, side, &mut out, keys);
+        out.push((a && b && c) as i128);
+        crate::lfu::tiny_snapshot(&t.verif_state(), &mut out);
+        out
+    }
+    fn extra(&mut self, op: &[i128]) -> Option<ZOut> {
+        Some(ZOut::Ints(match op[0] {
+            100 => vec![self.window_cache_len() as i128],
+            101 => vec![self.window_cache_cap() as i128],
+            102 => vec![self.main_cache_len() as i128],
+            103 => vec![self.main_cache_cap() as i128],
+            _ => return None,
+        }))
+    }
+    fn zcfg(&self) -> Option<Ints> {
+        let (t, w, m) = self.verif_parts();
+        let (prob, prot) = m.verif_parts();
+        let st = t.verif_state();
+        let mut cfg = vec![
+            w.cap() as i128,
+            prot.cap() as i128,
+            prob.cap() as i128,
+            st.samples as i128,
+            ZW_KH.load(std::sync::atomic::Ordering::Relaxed) as i128,
+            st.bloom_size_exp as i128,
+            st.bloom_set_locs as i128,
+        ];
+        cfg.extend(st.sketch_seeds.iter().map(|x| *x as i128));
+        Some(cfg)
     }
 }
